@@ -291,6 +291,75 @@ fn queued_burst_exec(n: &usize, ctx: &WorkerCtx) -> ExecResult {
     })
 }
 
+/// Exit propagation around awkward neighbours: (0) a link and a monitor established while the failed process is still inside
+/// its terminate() callback (it still resolves); (1) a linked peer whose handler panicked earlier (registered, mailbox closed)
+/// next to a live linked process and a live monitor; (2) a gen_server linked to a process that fails - it goes on answering.
+fn awkward_exit_exec(which: &usize, ctx: &WorkerCtx) -> ExecResult {
+    let which = *which;
+    run_rt(async move {
+        let mut res = ExecResult::default();
+        let lw = match local_world(ctx).await { Ok(x) => x, Err(e) => { res.violations.push(("node could not start against the fake EPMD".into(), json!({"error": e}))); return res; } };
+        let log: Log = Arc::new(Mutex::new(vec![]));
+        let node = lw.node.clone();
+        lw.w.gates.set_active(&[]);
+        let p0 = node.spawn(Rec { name: "p0".into(), log: log.clone() }).await.unwrap();
+        let p2 = node.spawn(Rec { name: "p2".into(), log: log.clone() }).await.unwrap();
+        let probe = { let l = log.clone(); move || l.lock().unwrap().len() as u64 };
+        let mut expect_p0: Vec<String> = vec![];
+        let mut expect_p2: Vec<String> = vec![];
+        match which {
+            0 => {
+                lw.w.gates.set_active(&["proc.terminate"]);
+                let p1 = node.spawn(SlowTerm { name: "p1".into(), log: log.clone() }).await.unwrap();
+                let _ = node.send(&p1, OwnedTerm::atom("die")).await;
+                settle_local(&lw.w, &probe).await; // p1 is now inside terminate()
+                let linked = node.registry().get(&p1).await.is_some() && node.link(&p0, &p1).await.is_ok();
+                let mon = node.monitor(&p2, &p1).await;
+                lw.w.gates.release_all_and_deactivate();
+                settle_local(&lw.w, &probe).await;
+                if linked { expect_p0.push(format!("exit:{}:", den_pid(&p1))); }
+                if let Ok(r) = mon { expect_p2.push(format!("down:{}:{}:", den_pid(&p1), den_ref(&r))); }
+            }
+            1 => {
+                let bomb = node.spawn(Bomb).await.unwrap();
+                let _ = node.send(&bomb, OwnedTerm::atom("boom")).await;
+                settle_local(&lw.w, &probe).await;
+                let p1 = node.spawn(Rec { name: "p1".into(), log: log.clone() }).await.unwrap();
+                let _ = node.link(&p1, &bomb).await;
+                let _ = node.link(&bomb, &p1).await;
+                let _ = node.link(&p0, &p1).await;
+                let mon = node.monitor(&p2, &p1).await;
+                let _ = node.send(&p1, OwnedTerm::atom("die")).await;
+                settle_local(&lw.w, &probe).await;
+                expect_p0.push(format!("exit:{}:", den_pid(&p1)));
+                if let Ok(r) = mon { expect_p2.push(format!("down:{}:{}:", den_pid(&p1), den_ref(&r))); }
+            }
+            _ => {
+                let gs = node.spawn(GenServerProcess::new(HoldEcho, node.registry())).await.unwrap();
+                let p1 = node.spawn(Rec { name: "p1".into(), log: log.clone() }).await.unwrap();
+                let _ = node.link(&gs, &p1).await;
+                let _ = node.send(&p1, OwnedTerm::atom("die")).await;
+                settle_local(&lw.w, &probe).await;
+                let r = node.make_reference();
+                let call = OwnedTerm::Tuple(vec![OwnedTerm::atom("$gen_call"), OwnedTerm::Tuple(vec![OwnedTerm::Pid(p2.clone()), OwnedTerm::Reference(r.clone())]), OwnedTerm::atom("after")]);
+                let _ = node.send(&gs, call).await;
+                settle_local(&lw.w, &probe).await;
+                expect_p2.push(format!("msg:{}", RefVal::Tuple(vec![den_ref(&r), RefVal::Tuple(vec![RefVal::atom("echo"), RefVal::atom("after")])])));
+            }
+        }
+        let got = |name: &str| -> Vec<String> { log.lock().unwrap().iter().filter(|x| x.0 == name).map(|x| x.1.clone()).collect() };
+        let matches = |got: &Vec<String>, want: &Vec<String>| got.len() == want.len() && got.iter().zip(want).all(|(g, w)| g.starts_with(w.as_str()));
+        let (g0, g2) = (got("p0"), got("p2"));
+        let label = ["link and monitor during terminate()", "crashed linked peer next to live ones", "gen_server linked to a failing process"][which];
+        if !matches(&g0, &expect_p0) || !matches(&g2, &expect_p2) {
+            res.violations.push(("exit notices or answers around an awkward neighbour are missing, duplicated or spurious".into(), json!({"scenario": label, "p0_received": g0, "p0_expected_prefixes": expect_p0, "p2_received": g2, "p2_expected_prefixes": expect_p2})));
+        }
+        res.steps = 3;
+        res.outcome = format!("awkward {}", which);
+        res
+    })
+}
+
 /// gen_event handler: echoes a call, fails on the request `fail`.
 struct EchoHandler;
 impl edp_node::gen_event::GenEventHandler for EchoHandler {
@@ -530,6 +599,8 @@ pub fn run(rep: &Report) -> Value {
     let seq_stats: Stats = for_all(rep, "sequential histories", &cases, |c, ctx| run_sequence(c, ctx));
     let qb = [1usize, 2, 3, 4, 7, 33, 40];
     let qb_stats: Stats = for_all(rep, "messages queued behind a busy process", &qb, |c, ctx| queued_burst_exec(c, ctx));
+    let aw = [0usize, 1, 2];
+    let aw_stats: Stats = for_all(rep, "exit propagation around awkward neighbours", &aw, |c, ctx| awkward_exit_exec(c, ctx));
     let ge = [0usize, 1, 2, 3];
     let ge_stats: Stats = for_all(rep, "gen_event calls to installed, missing and failing handlers", &ge, |c, ctx| gen_event_calls(c, ctx));
     let gsd = [false, true];
@@ -541,7 +612,7 @@ pub fn run(rep: &Report) -> Value {
         let st = explore(rep, n, bound, std::time::Duration::from_secs(if thorough { 300 } else { 20 }), |ch, ctx| concurrent(ch, ctx, i));
         conc.push((n.to_string(), st));
     }
-    let states = seq_stats.executions + gs_stats.executions + ge_stats.executions + qb_stats.executions + conc.iter().map(|c| c.1.executions).sum::<u64>();
+    let states = seq_stats.executions + gs_stats.executions + ge_stats.executions + qb_stats.executions + aw_stats.executions + conc.iter().map(|c| c.1.executions).sum::<u64>();
     let transitions = seq_stats.transitions + conc.iter().map(|c| c.1.transitions).sum::<u64>();
     let mut samples = vec![json!({"sequential_history": format!("{:?}", cases[cases.len() / 3])}), json!({"sequential_history": format!("{:?}", cases[cases.len() - 11])})];
     for c in &conc { samples.extend(c.1.samples.iter().take(1).cloned()); }
